@@ -4,6 +4,9 @@ package main
 // argument is a constant or fmt.Sprintf with a constant format.
 
 import (
+	"strings"
+	"go/token"
+	"go/types"
 	"go/constant"
 	"sort"
 	"strconv"
@@ -20,6 +23,13 @@ type writeSite struct {
 	args   []ssa.Value // Sprintf operands (unwrapped from interface conversion)
 	arg    ssa.Value   // the raw argument
 	konst  bool        // argument is a constant
+	argT   []string    // operand terms in the namespace of the analysed function
+	cond   dnf         // reaching condition of the write in that namespace
+	via    *ssa.Function // non-nil: the write is performed by this helper, called at `call`
+	depth  int           // number of helper calls between the analysed function and the write
+	inner  token.Pos     // position of the write itself (== call.Pos() when depth is 0)
+	origin *ssa.Function // the function containing the write itself
+	alt    int           // >0: the k-th alternative of a merged operand (splitPhiOperand)
 }
 
 // varargElems returns the elements stored into a varargs slice value.
@@ -168,4 +178,311 @@ func concatTemplate(v ssa.Value) (string, []ssa.Value, bool) {
 		return "", nil, false
 	}
 	return format, ops, true
+}
+
+// sitesOf lists the builder writes performed by fn, including those performed on fn's
+// builder by helper functions it calls (virtual inlining, depth 2): a helper's write is
+// reported at the call instruction in fn, with its operands and its condition rewritten
+// into fn's namespace ($k -> k-th argument) and conjoined with the condition of the call.
+func (c *Ctx) sitesOf(fn *ssa.Function) []writeSite {
+	return c.sitesDepth(fn, 0, map[*ssa.Function]bool{})
+}
+
+func (c *Ctx) sitesDepth(fn *ssa.Function, depth int, onStack map[*ssa.Function]bool) []writeSite {
+	pc := c.PC(fn)
+	var out []writeSite
+	for _, ws := range writeSites(fn) {
+		for _, a := range ws.args {
+			ws.argT = append(ws.argT, c.term(fn, a))
+		}
+		ws.inner = ws.call.Pos()
+		ws.origin = fn
+		ws.cond = pc.canonOf(pc.At(ws.call.Block()))
+		if ws.cond.unknown {
+			ws.cond = mkDNF(pc.Must(ws.call.Block()))
+		}
+		out = append(out, c.splitPhiOperand(fn, ws)...)
+	}
+	if depth >= inlineDepth {
+		return out
+	}
+	onStack[fn] = true
+	defer delete(onStack, fn)
+	for _, ci := range callsIn(fn) {
+		g := callee(ci)
+		if g == nil || !c.W.InRepo(g) || onStack[g] || len(g.Blocks) == 0 {
+			continue
+		}
+		args := ci.Common().Args
+		hasBuilder := false
+		for _, a := range args {
+			if isBuilderPtr(a.Type()) {
+				hasBuilder = true
+			}
+		}
+		if !hasBuilder {
+			continue
+		}
+		callCond := pc.canonOf(pc.At(ci.Block()))
+		if callCond.unknown {
+			callCond = mkDNF(pc.Must(ci.Block()))
+		}
+		for _, sub := range c.sitesDepth(g, depth+1, onStack) {
+			// the builder written by the helper must be one of its parameters
+			k := paramIndex(g, sub.sb)
+			if k < 0 || k >= len(args) {
+				continue
+			}
+			ns := writeSite{call: ci, method: sub.method, sb: args[k], format: sub.format, isFmt: sub.isFmt, konst: sub.konst, via: g, depth: sub.depth + 1, inner: sub.inner, origin: sub.origin}
+			for _, t := range sub.argT {
+				ns.argT = append(ns.argT, c.substParams(fn, ci, t))
+			}
+			sc := dnf{unknown: sub.cond.unknown}
+			for _, cj := range sub.cond.cs {
+				var n conj
+				for _, l := range cj {
+					n = append(n, l[:1]+c.substParams(fn, ci, l[1:]))
+				}
+				sort.Strings(n)
+				sc.cs = append(sc.cs, n)
+			}
+			ns.cond = andDNF(callCond, sc)
+			out = append(out, ns)
+		}
+	}
+	sort.SliceStable(out, func(i, j int) bool { return out[i].call.Pos() < out[j].call.Pos() })
+	return out
+}
+
+// siteMust: literals that hold whenever the write is performed.
+func siteMust(ws writeSite) []string {
+	d := ws.cond
+	if d.unknown || len(d.cs) == 0 {
+		return nil
+	}
+	count := map[string]int{}
+	for _, cj := range d.cs {
+		for _, l := range cj {
+			count[l]++
+		}
+	}
+	var out []string
+	for l, n := range count {
+		if n == len(d.cs) {
+			out = append(out, l)
+		}
+	}
+	sort.Strings(out)
+	return out
+}
+
+const inlineDepth = 2
+
+// isWriterHelper: fn receives a *strings.Builder, is only ever called statically from repo
+// functions (never used as a value, never an interface method), so that every write it
+// performs is seen, inlined, by sitesOf of each caller.
+func (c *Ctx) isWriterHelper(fn *ssa.Function) bool {
+	has := false
+	for _, p := range fn.Params {
+		if isBuilderPtr(p.Type()) {
+			has = true
+		}
+	}
+	if !has || len(c.W.callsTo(fn)) == 0 {
+		return false
+	}
+	if fn.Signature.Recv() != nil {
+		for _, pkg := range c.W.Pkgs {
+			sc := pkg.Types.Scope()
+			for _, n := range sc.Names() {
+				tn, ok := sc.Lookup(n).(*types.TypeName)
+				if !ok {
+					continue
+				}
+				if it, ok := tn.Type().Underlying().(*types.Interface); ok {
+					for i := 0; i < it.NumMethods(); i++ {
+						if it.Method(i).Name() == fn.Name() {
+							return false
+						}
+					}
+				}
+			}
+		}
+	}
+	for _, g := range c.W.Funcs {
+		used := false
+		instrs(g, func(in ssa.Instruction) {
+			for _, op := range in.Operands(nil) {
+				f, ok := (*op).(*ssa.Function)
+				if !ok || f == nil {
+					continue
+				}
+				if f != fn && !(f.Synthetic != "" && f.Object() != nil && f.Object() == fn.Object()) {
+					continue
+				}
+				if ci, ok := in.(ssa.CallInstruction); ok && ci.Common().Value == *op && f == fn {
+					continue
+				}
+				used = true
+			}
+		})
+		if used {
+			return false
+		}
+	}
+	return true
+}
+
+func isBuilderPtr(t types.Type) bool {
+	if p, ok := t.(*types.Pointer); ok {
+		if n, ok := p.Elem().(*types.Named); ok && n.Obj().Name() == "Builder" && n.Obj().Pkg() != nil && n.Obj().Pkg().Path() == "strings" {
+			return true
+		}
+	}
+	return false
+}
+
+// siteDuty is one write site on which a rule places an obligation.
+type siteDuty struct {
+	fn          *ssa.Function
+	ws          writeSite
+	ok          bool
+	transferred bool // not satisfied in fn itself, fn is a writer helper: checked in its callers
+}
+
+// siteDuties evaluates an obligation on every relevant native write site of fns. A site
+// that does not satisfy it inside a writer helper (isWriterHelper) is handed to the helper's
+// callers, which see the same write inlined (sitesOf) with operands and condition in their
+// own terms; the hand-over stops at the inlining depth.
+func (c *Ctx) siteDuties(fns []*ssa.Function, relevant func(ws writeSite) bool, ok func(fn *ssa.Function, ws writeSite) bool) []siteDuty {
+	type item struct {
+		fn *ssa.Function
+		ws writeSite
+	}
+	var work []item
+	for _, fn := range fns {
+		for _, ws := range c.sitesOf(fn) {
+			if ws.depth == 0 && relevant(ws) {
+				work = append(work, item{fn, ws})
+			}
+		}
+	}
+	var out []siteDuty
+	for len(work) > 0 {
+		it := work[0]
+		work = work[1:]
+		d := siteDuty{fn: it.fn, ws: it.ws}
+		if ok(it.fn, it.ws) {
+			d.ok = true
+		} else if it.ws.depth < inlineDepth && c.isWriterHelper(it.fn) {
+			seen := map[*ssa.Function]bool{}
+			n := 0
+			for _, call := range c.W.callsTo(it.fn) {
+				f := call.Parent()
+				if seen[f] {
+					continue
+				}
+				seen[f] = true
+				for _, ws2 := range c.sitesOf(f) {
+					if ws2.via == it.fn && ws2.inner == it.ws.inner && ws2.depth == it.ws.depth+1 {
+						work = append(work, item{f, ws2})
+						n++
+					}
+				}
+			}
+			d.transferred = n > 0
+		}
+		out = append(out, d)
+	}
+	return out
+}
+
+// argV: the i-th operand as an SSA value of the analysed function; nil for writes that
+// are performed by a helper (their operands exist only as terms).
+func (ws writeSite) argV(i int) ssa.Value {
+	if i < len(ws.args) {
+		return ws.args[i]
+	}
+	return nil
+}
+
+// splitPhiOperand: a formatted write one of whose %s operands is a merge of alternatives,
+// at least one of them a string constant (`cmd := "a"; if p { cmd = "b" }; write("\t%s ..", cmd)`),
+// is reported as one write per alternative: the constant is substituted into the format and
+// the reaching condition is restricted to the edge that selects it. The two spellings of
+// "choose the mnemonic" — one write per arm, or one write of a chosen word — thus give the
+// same sites. Merges at loop heads are left alone.
+func (c *Ctx) splitPhiOperand(fn *ssa.Function, ws writeSite) []writeSite {
+	if !ws.isFmt {
+		return []writeSite{ws}
+	}
+	pc := c.PC(fn)
+	for i, a := range ws.args {
+		ph, ok := a.(*ssa.Phi)
+		if !ok || isLoopHeader(ph.Block()) || !ph.Block().Dominates(ws.call.Block()) {
+			continue
+		}
+		nConst := 0
+		for _, e := range ph.Edges {
+			if _, ok := strConst(e); ok {
+				nConst++
+			}
+		}
+		start, end := verbSpan(ws.format, i)
+		if nConst == 0 || start < 0 || ws.format[start:end] != "%s" {
+			continue
+		}
+		var out []writeSite
+		for k, e := range ph.Edges {
+			pred := ph.Block().Preds[k]
+			pd := pc.At(pred)
+			if pd.unknown {
+				pd = mkDNF(pc.Must(pred))
+			}
+			ed := dnf{cs: pc.edgeDNF(pred, ph.Block())}
+			ns := ws
+			ns.cond = andDNF(ws.cond, andDNF(pd, ed))
+			ns.alt = k + 1
+			if s, ok := strConst(e); ok {
+				ns.format = ws.format[:start] + strings.ReplaceAll(s, "%", "%%") + ws.format[end:]
+				ns.args = append(append([]ssa.Value{}, ws.args[:i]...), ws.args[i+1:]...)
+				ns.argT = append(append([]string{}, ws.argT[:i]...), ws.argT[i+1:]...)
+			} else {
+				ns.args = append([]ssa.Value{}, ws.args...)
+				ns.args[i] = e
+				ns.argT = append([]string{}, ws.argT...)
+				ns.argT[i] = c.term(fn, e)
+			}
+			out = append(out, ns)
+		}
+		return out
+	}
+	return []writeSite{ws}
+}
+
+// verbSpan returns the byte span of the i-th formatting verb of format.
+func verbSpan(format string, i int) (int, int) {
+	n := 0
+	for p := 0; p < len(format); p++ {
+		if format[p] != '%' {
+			continue
+		}
+		if p+1 < len(format) && format[p+1] == '%' {
+			p++
+			continue
+		}
+		q := p + 1
+		for q < len(format) && strings.ContainsRune("+-# 0123456789.", rune(format[q])) {
+			q++
+		}
+		if q >= len(format) {
+			return -1, -1
+		}
+		if n == i {
+			return p, q + 1
+		}
+		n++
+		p = q
+	}
+	return -1, -1
 }
